@@ -2,7 +2,10 @@
 
 E3: every single-octet substitution (all 256 values), truncation and one-octet insertion of one valid frame per
     service, at the LAN level and at the B/IP level, each on a fresh real device; reply oracle + health oracle.
-E1: all short sequences of representative garbage frames interleaved with one valid request at the same instant.
+E1: all short sequences of representative garbage frames interleaved with one valid request at the same instant
+    (one task per frame, or one batch of deferred calls as the UDP director hands them over).
+Dialogues: every mutation of the tester's reply while the device is in the middle of a segmented response or waits for
+    the acknowledgement of a confirmed notification.
 """
 import itertools
 import time
@@ -112,21 +115,25 @@ def to_tester2(dst, level):
     return dst == "8" if level == "lan" else "192.168.1.8" in dst
 
 
-def run_frames(level, frames, settle_between=True, probe=True):
-    """Deliver frames to a fresh device; returns (device, problems, observation)."""
+def run_frames(level, frames, settle_between=True, probe=True, judge_first_reply=True):
+    """Deliver frames to a fresh device; returns (device, problems, observation).  settle_between: True (each frame is
+    processed before the next arrives), False (same instant, one task each), "deferred" (one batch of deferred calls)."""
     dev = Device(level)
     start = len(dev.sent())
-    for f in frames:
-        dev.inject(f, settle=settle_between)
+    if settle_between == "deferred":
+        dev.inject_deferred(frames)
+    else:
+        for f in frames:
+            dev.inject(f, settle=settle_between)
     dev.settle()
     dev.lingering = bool(dev.app.smap.serverTransactions or dev.app.smap.clientTransactions)
     dev.run_quiet()
     problems = []
     sent = replies_of(dev, level, start)
     # reply oracle per frame
-    for f in frames:
+    for fi, f in enumerate(frames):
         cls = devref.classify(f, level)
-        if not cls["judged"]:
+        if not cls["judged"] or (fi == 0 and not judge_first_reply):
             continue
         mine = [(dst, n, a) for (dst, n, a, raw) in sent
                 if a is not None and a["invoke"] == cls["invoke"] and a["type"] in (2, 3, 5, 6, 7)
@@ -244,6 +251,53 @@ def hist_shard(item, deadline):
     return acc
 
 
+# Dialogues: the device is in the middle of a transaction when the garbage arrives.  (opening frame, valid reply of the
+# tester); the opening frames use invoke ID 200 so that the later probe (also 200) meets whatever was left behind.
+DIALOGUES = {
+    # ReadPropertyMultiple 'all' of the device, answers limited to 50 octets, segmented response accepted: the device sends
+    # segment 0 of a segmented ComplexAck and waits for the tester's SegmentACK
+    "segmented-response-in-progress": (H(NP_REQ + "0200C80E" + "0C02000001" + "1E" + "0908" + "1F"), H(NP_UNC + "40C80002")),
+    # ReadProperty of a 60-character description, answers limited to 50 octets: a response of exactly two segments, so that
+    # an ack naming sequence number 1 points past what was sent
+    "two-segment-response-in-progress": (H(NP_REQ + "0200C80C" + "0C00800001" + "191C"), H(NP_UNC + "40C80002")),
+    # SubscribeCOV with confirmed notifications: the device sends a ConfirmedCOVNotification (its own invoke ID 1) and
+    # waits for the tester's SimpleAck
+    "confirmed-notification-outstanding": (H(NP_REQ + "0005C805" + "0902" + "1C00400001" + "2901" + "3903"), H(NP_UNC + "200101")),
+}
+
+
+def dialogue_cases(tier):
+    out = []
+    for level in ("lan", "ip"):
+        for name, (opening, reply) in DIALOGUES.items():
+            o, r = wrap(level, opening), wrap(level, reply)
+            for kind, m in mutations(r):
+                out.append((level, name, kind, o, m))
+    return out
+
+
+def dlg_shard(item, deadline):
+    acc = Acc()
+    for (level, name, kind, opening, reply) in item:
+        if time.time() > deadline:
+            acc.cap("deadline inside the dialogue sweep")
+            break
+        dev, problems, obs = run_frames(level, [opening, reply], judge_first_reply=False)
+        acc.case((level, name, reply))
+        acc.traces += 1
+        acc.transitions += 3
+        acc.state((level, "dialogue", name, tuple(obs), handling_signature(dev, problems), tuple(sorted(dev.residue())), bool(problems)))
+        acc.outcome("dlg:%s:%s" % (name, ",".join(obs)[:40] or "silent"))
+        for nm, msg in vclock.swallowed:
+            acc.swallowed["%s: %s" % (nm, msg[:70])] += 1
+        for prob, detail in problems:
+            acc.fail(root_cause(dev, "dialogue:%s:%s" % (name, prob)),
+                     {"problem": prob, "detail": detail, "level": level, "dialogue": name, "mutation": kind,
+                      "opening": opening.hex(), "reply": reply.hex(), "device_sent": obs},
+                     {"level": level, "frames": [opening, reply], "settle": True, "dialogue": True})
+    return acc
+
+
 def all_mutations(tier):
     out = []
     for level in ("lan", "ip"):
@@ -296,10 +350,13 @@ def run(tier, seed, deadline):
             for seq in itertools.product(garbage, repeat=n):
                 for pos in range(n + 1):
                     frames = list(seq[:pos]) + [valid] + list(seq[pos:])
-                    for settle in (True, False):
+                    for settle in ((True, False, "deferred") if n <= 2 else (True, False)):
                         items.append((level, frames, settle))
     acc.info["histories"] = len(items)
     run_shards(hist_shard, chunks(items, 256), deadline, into=acc)
+    dlg = dialogue_cases(tier)
+    acc.info["dialogue replies"] = len(dlg)
+    run_shards(dlg_shard, chunks(dlg, 128), deadline, into=acc)
     acc.sample({"level": "lan", "base": "ReadProperty", "frame": BASES["ReadProperty"].hex(), "device_sent": a[2]})
     if pool.get("lan"):
         g = pool["lan"][0]
@@ -310,7 +367,8 @@ def run(tier, seed, deadline):
 def replay(case):
     vclock.install()
     frames = [f if isinstance(f, bytes) else bytes.fromhex(f["hex"]) for f in case["frames"]]
-    dev, problems, obs = run_frames(case["level"], frames, settle_between=case.get("settle", True))
+    dev, problems, obs = run_frames(case["level"], frames, settle_between=case.get("settle", True),
+                                    judge_first_reply=not case.get("dialogue"))
     text = "level=%s frames=%r\nclassified=%r\ndevice sent=%r\nswallowed=%r\nproblems=%r" % (
         case["level"], [f.hex() for f in frames], [devref.classify(f, case["level"])["why"] for f in frames], obs,
         handling_signature(dev, None), problems)
